@@ -153,4 +153,167 @@ Z0RuleMatchesRelations ==
 AllRelationsWellFormed ==
     /\ \A t \in TwoPortOnly : RelationWellFormed(t, 2)
     /\ \A t \in NPortTypes, n \in 1..6 : RelationWellFormed(t, n)
+
+-----------------------------------------------------------------------------
+(* STRUCTURED NETWORKS.  A conversion X -> Y is regular for every network  *)
+(* for which both representations exist; its singular set is where X or Y  *)
+(* does not exist, NOT where some third representation fails to exist.     *)
+(* Generic (random) matrices never visit the networks for which some       *)
+(* representation is missing, so they are enumerated here.                 *)
+(*                                                                         *)
+(* A network is given by n linear constraints on its port state            *)
+(* (v_1..v_n, i_1..i_n); a constraint is a sequence of terms               *)
+(* [q |-> "v"|"i", p |-> port, c |-> coefficient symbol], the symbols being *)
+(* "1", "-1" and the element values "e1", "-e1", "e2", ... (impedances or  *)
+(* admittances, drawn by the harness with positive real part).             *)
+
+CT(q, p, c) == [q |-> q, p |-> p, c |-> c]
+
+NetNames2 == {"series", "shunt", "through", "decoupled", "short2", "open2"}
+NetNamesN == {"floating", "star"}
+
+(* number of element values *)
+NetElems(net, n) ==
+    CASE net = "series"    -> 1      \* e1: series impedance between the ports
+      [] net = "shunt"     -> 1      \* e1: admittance from the common node to ground
+      [] net = "through"   -> 0
+      [] net = "decoupled" -> 2      \* e1, e2: admittance to ground at each port
+      [] net = "short2"    -> 0
+      [] net = "open2"     -> 0
+      [] net = "floating"  -> n      \* e_p: impedance from port p to an internal node
+      [] net = "star"      -> 1      \* e1: admittance from the common node to ground
+
+(* kind of each element value: "z" an impedance, "y" an admittance (only   *)
+(* tells the harness the natural magnitude to draw)                        *)
+NetElemKinds(net, n) ==
+    CASE net = "series"    -> "z"
+      [] net = "shunt"     -> "y"
+      [] net = "decoupled" -> "yy"
+      [] net = "floating"  -> IF n = 2 THEN "zz" ELSE IF n = 3 THEN "zzz" ELSE "zzzz"
+      [] net = "star"      -> "y"
+      [] OTHER             -> "-"
+
+ESym(k) == CASE k = 1 -> "e1" [] k = 2 -> "e2" [] k = 3 -> "e3" [] k = 4 -> "e4"
+NSym(k) == CASE k = 1 -> "-e1" [] k = 2 -> "-e2" [] k = 3 -> "-e3" [] k = 4 -> "-e4"
+
+NetConstraints(net, n) ==
+    CASE net = "series" ->
+           << <<CT("i", 1, "1"), CT("i", 2, "1")>>,
+              <<CT("v", 1, "1"), CT("v", 2, "-1"), CT("i", 1, "-e1")>> >>
+      [] net = "shunt" ->
+           << <<CT("v", 1, "1"), CT("v", 2, "-1")>>,
+              <<CT("i", 1, "1"), CT("i", 2, "1"), CT("v", 1, "-e1")>> >>
+      [] net = "through" ->
+           << <<CT("v", 1, "1"), CT("v", 2, "-1")>>,
+              <<CT("i", 1, "1"), CT("i", 2, "1")>> >>
+      [] net = "decoupled" ->
+           << <<CT("i", 1, "1"), CT("v", 1, "-e1")>>,
+              <<CT("i", 2, "1"), CT("v", 2, "-e2")>> >>
+      [] net = "short2" ->
+           << <<CT("v", 1, "1")>>, <<CT("v", 2, "1")>> >>
+      [] net = "open2" ->
+           << <<CT("i", 1, "1")>>, <<CT("i", 2, "1")>> >>
+      [] net = "floating" ->
+           (* no path to ground: currents sum to zero; every port reaches  *)
+           (* the same internal node through its own series impedance      *)
+           [k \in 1..n |->
+              IF k = n THEN [p \in 1..n |-> CT("i", p, "1")]
+              ELSE <<CT("v", k, "1"), CT("i", k, NSym(k)),
+                     CT("v", n, "-1"), CT("i", n, ESym(n))>>]
+      [] net = "star" ->
+           (* all ports on one node with one admittance to ground *)
+           [k \in 1..n |->
+              IF k = n THEN [p \in 1..(n + 1) |->
+                               IF p <= n THEN CT("i", p, "1")
+                               ELSE CT("v", 1, "-e1")]
+              ELSE <<CT("v", k, "1"), CT("v", n, "-1")>>]
+
+(* ---- exact integer linear algebra: does a representation exist? ---- *)
+
+(* two instances of the element values, small distinct primes; a          *)
+(* representation exists generically iff the determinant is non-zero for  *)
+(* both (NetGeneric checks that the two never disagree)                    *)
+EVal(inst, k) == IF inst = 1 THEN <<3, 7, 11, 13>>[k] ELSE <<5, 17, 19, 23>>[k]
+CoefVal(inst, c) ==
+    CASE c = "1" -> 1 [] c = "-1" -> -1
+      [] c = "e1" -> EVal(inst, 1) [] c = "-e1" -> -EVal(inst, 1)
+      [] c = "e2" -> EVal(inst, 2) [] c = "-e2" -> -EVal(inst, 2)
+      [] c = "e3" -> EVal(inst, 3) [] c = "-e3" -> -EVal(inst, 3)
+      [] c = "e4" -> EVal(inst, 4) [] c = "-e4" -> -EVal(inst, 4)
+
+(* column of a quantity in the state vector (v_1..v_n, i_1..i_n) *)
+Col(q, p, n) == IF q = "v" THEN p ELSE n + p
+
+RECURSIVE SumTerms(_, _, _, _, _)
+SumTerms(eq, k, col, n, inst) ==
+    IF k > Len(eq) THEN 0
+    ELSE (IF Col(eq[k].q, eq[k].p, n) = col THEN CoefVal(inst, eq[k].c) ELSE 0)
+         + SumTerms(eq, k + 1, col, n, inst)
+
+ConstraintRow(eq, n, inst) == [col \in 1..(2 * n) |-> SumTerms(eq, 1, col, n, inst)]
+
+(* row that picks one port quantity; waves at unit reference impedance:    *)
+(* a ~ v + i, b ~ v - i (the positive scale factor is irrelevant here)     *)
+TermRow(t, n) ==
+    [col \in 1..(2 * n) |->
+        t.s * (CASE t.q = "v" -> IF col = t.p THEN 1 ELSE 0
+                 [] t.q = "i" -> IF col = n + t.p THEN 1 ELSE 0
+                 [] t.q = "a" -> IF col = t.p \/ col = n + t.p THEN 1 ELSE 0
+                 [] t.q = "b" -> IF col = t.p THEN 1
+                                 ELSE IF col = n + t.p THEN -1 ELSE 0)]
+
+(* determinant by expansion along the first row *)
+Minor(m, j) == [r \in 1..(Len(m) - 1) |->
+                  [c \in 1..(Len(m) - 1) |-> m[r + 1][IF c < j THEN c ELSE c + 1]]]
+RECURSIVE Det(_)
+RECURSIVE DetSum(_, _)
+Det(m) == IF Len(m) = 1 THEN m[1][1] ELSE DetSum(m, 1)
+DetSum(m, j) ==
+    IF j > Len(m) THEN 0
+    ELSE (IF m[1][j] = 0 THEN 0
+          ELSE (IF j % 2 = 1 THEN 1 ELSE -1) * m[1][j] * Det(Minor(m, j)))
+         + DetSum(m, j + 1)
+
+(* the state is determined by the independent tuple of type t *)
+ExistsInst(net, n, t, inst) ==
+    LET cons == NetConstraints(net, n)
+        ind  == Relation(t, n).ind
+        m == [r \in 1..(2 * n) |->
+                IF r <= n THEN ConstraintRow(cons[r], n, inst)
+                ELSE TermRow(ind[r - n], n)]
+    IN Det(m) # 0
+
+TypeExists(net, n, t) == ExistsInst(net, n, t, 1) /\ ExistsInst(net, n, t, 2)
+
+(* finite input impedance at port k: with every other port terminated     *)
+(* (a_j = 0) the current i_k can be chosen freely                          *)
+ZinExistsInst(net, n, inst) ==
+    \A k \in 1..n :
+       LET cons == NetConstraints(net, n)
+           m == [r \in 1..(2 * n) |->
+                   IF r <= n THEN ConstraintRow(cons[r], n, inst)
+                   ELSE IF r - n = k THEN TermRow(Term("i", k, 1), n)
+                   ELSE TermRow(Term("a", r - n, 1), n)]
+       IN Det(m) # 0
+ZinExists(net, n) == ZinExistsInst(net, n, 1) /\ ZinExistsInst(net, n, 2)
+
+TypesFor(n) == IF n = 2 THEN MatrixTypes ELSE NPortTypes
+
+NetGeneric ==
+    /\ \A net \in NetNames2, t \in MatrixTypes :
+          ExistsInst(net, 2, t, 1) = ExistsInst(net, 2, t, 2)
+    /\ \A net \in NetNamesN, n \in 2..3, t \in NPortTypes :
+          ExistsInst(net, n, t, 1) = ExistsInst(net, n, t, 2)
+
+(* what the lead-in says, as theorems about the definitions *)
+NetExistenceAsExpected ==
+    /\ {t \in MatrixTypes : ~TypeExists("series", 2, t)} = {"Z"}
+    /\ {t \in MatrixTypes : ~TypeExists("shunt", 2, t)} = {"Y"}
+    /\ {t \in MatrixTypes : ~TypeExists("through", 2, t)} = {"Z", "Y"}
+    /\ {t \in MatrixTypes : TypeExists("decoupled", 2, t)} = {"S", "Z", "Y", "H", "G"}
+    /\ {t \in MatrixTypes : TypeExists("short2", 2, t)} = {"S", "Z"}
+    /\ {t \in MatrixTypes : TypeExists("open2", 2, t)} = {"S", "Y"}
+    /\ \A n \in 2..3 : {t \in NPortTypes : TypeExists("floating", n, t)} = {"S", "Y"}
+    /\ \A n \in 2..3 : {t \in NPortTypes : TypeExists("star", n, t)} = {"S", "Z"}
+    /\ ~ZinExists("open2", 2) /\ ZinExists("short2", 2) /\ ZinExists("series", 2)
 =============================================================================
